@@ -160,7 +160,7 @@ impl Property for C18 {
         ]
     }
     fn expected_probes(&self) -> Vec<&'static str> {
-        vec!["pitch", "pitch_tp0", "noise", "envelope", "envelope_period_measured", "ladder", "gating", "panning", "bound", "readback", "rate_below_27k", "ym_chip", "order_independence", "machine_retrigger", "listener_independence", "mirrored_register_numbers", "host_mute_unmute", "envelope_long_hold", "machine_long_silence", "ultrasonic_tone_mean"]
+        vec!["pitch", "pitch_tp0", "noise", "envelope", "envelope_period_measured", "ladder", "gating", "panning", "bound", "readback", "rate_below_27k", "ym_chip", "order_independence", "machine_retrigger", "listener_independence", "mirrored_register_numbers", "host_mute_unmute", "envelope_long_hold", "machine_long_silence", "ultrasonic_tone_mean", "dc_filter_long_run", "ay_keeps_playing_over_sna_load"]
     }
     fn time_unit_hz(&self) -> f64 {
         44_100.0
@@ -169,6 +169,7 @@ impl Property for C18 {
     fn gen(&self, rng: &mut Rng, _tier: Tier, idx: u64) -> Scenario {
         let mut sc = Scenario::new();
         sc.set("feature", (idx % 11) as i64);
+        sc.set("dc_long", (idx % 1100 == 7) as i64);
         sc.set("ym", rng.bool() as i64);
         sc.set("mode", rng.range(0, 6));
         let rate = if rng.bool() { *rng.pick(&super::c19::RATES) as i64 } else { rng.range(8000, 384000) };
@@ -237,6 +238,36 @@ impl Property for C18 {
             h.u8(ym as u8);
             ctx.cover(h.get());
         };
+        if sc.get("dc_long") != 0 {
+            // ---- the output stage over a long run: with the DC filter on (as rustzx uses the chip), a channel panned
+            // hard to one side never appears on the other side, however long the chip has been generating samples
+            // (2.2 million here: internal sums that are rebuilt or renormalised now and then get their turn)
+            ctx.probe("dc_filter_long_run");
+            let mut ay = AymPrecise::new(if ym { SoundChip::YM } else { SoundChip::AY }, AyMode::ABC, CLK as usize, 384_000);
+            ay.enable_dc_filter();
+            ay.write_register(7, 0x3E);
+            ay.write_register(0, 200);
+            ay.write_register(1, 0);
+            ay.write_register(8, 15);
+            let mut worst = 0f64;
+            let mut at = 0usize;
+            for i in 0..2_200_000usize {
+                let s = ay.next_sample();
+                if i > 4096 && s.right.abs() > worst {
+                    worst = s.right.abs();
+                    at = i;
+                }
+                if !s.left.is_finite() || !s.right.is_finite() {
+                    return Err(Fail::new("C18.bound", "dc_long=1", format!("non-finite sample {} of a long run", i)));
+                }
+            }
+            if worst > 1e-3 {
+                return Err(Fail::new("C18.panning", "dc_long=1", format!("channel A (ABC mode: left only) appears on the right output with |right| = {:.4} at sample {} of a long run with the DC filter on", worst, at)));
+            }
+            ctx.units += 1;
+            ctx.sim_t += 2_200_000 * 44100 / 384_000;
+            return Ok(());
+        }
         if feature == 8 {
             // ---- order independence: registers are latches. Two chips with identical histories are
             // programmed with the same final register file, one in ascending order, one in a seeded
@@ -386,6 +417,54 @@ impl Property for C18 {
             st.pc = 0x8000;
             st.sp = 0x8FF0;
             st.to_impl(e.verif_cpu());
+            if (sc.get("seed") >> 9) & 3 == 1 {
+                // ---- the chip plays what its registers say, also across a host action that does not touch it: a
+                // steady tone is programmed, the host loads an SNA snapshot (the format carries no AY state), and the
+                // registers still read back as before - so the tone must still be there
+                ctx.probe("ay_keeps_playing_over_sna_load");
+                let chb = ch as u8;
+                let tp: u16 = 200 + rng.u16() % 1500;
+                let mut wr = |e: &mut Emu, r: u8, v: u8| {
+                    e.verif_bus().write_io(0xFFFD, r);
+                    e.verif_bus().write_io(0xBFFD, v);
+                };
+                wr(&mut e, 7, 0x3F & !(1 << chb));
+                wr(&mut e, chb * 2, tp as u8);
+                wr(&mut e, chb * 2 + 1, (tp >> 8) as u8);
+                for k in 0..3u8 {
+                    wr(&mut e, 8 + k, if k == chb { 0x0F } else { 0 });
+                }
+                let swing_of = |e: &mut Emu| -> Result<f32, Fail> {
+                    let mut v = vec![];
+                    for _ in 0..3 {
+                        run_frames(e, 1).map_err(|x| Fail::new("C18.run", "", x))?;
+                        drain_audio(e, &mut v);
+                    }
+                    let tail = &v[v.len() / 2..];
+                    let (lo, hi) = tail.iter().fold((f32::MAX, f32::MIN), |a, s| (a.0.min(s.0.max(s.1)), a.1.max(s.0.max(s.1))));
+                    Ok(hi - lo)
+                };
+                let before = swing_of(&mut e)?;
+                let mut sn = crate::snapfmt::SnapState::new(cfg.m128);
+                sn.cpu.pc = 0x8000;
+                sn.cpu.sp = 0x8FF0;
+                sn.banks[2][..3].copy_from_slice(&[0xF3, 0x18, 0xFE]);
+                let bytes = if cfg.m128 { crate::snapfmt::write_sna128(&sn) } else { crate::snapfmt::write_sna48(&sn) };
+                e.load_snapshot(rustzx_core::host::Snapshot::Sna(crate::host::SimAsset::plain(bytes))).map_err(|x| Fail::new("C18.load", "", format!("{:?}", x)))?;
+                e.verif_bus().write_io(0xFFFD, 8 + chb);
+                let r8 = e.verif_bus().read_io(0xFFFD);
+                let after = swing_of(&mut e)?;
+                if r8 & 0x0F == 0x0F && before > 0.05 && after < before * 0.5 {
+                    return Err(Fail::new(
+                        "C18.silent_although_registers_say_otherwise",
+                        "after=sna_load",
+                        format!("channel {} plays a tone (swing {:.3}); after the host loaded an SNA snapshot its amplitude register still reads {:02X} but the swing is {:.3}", ch, before, r8, after),
+                    ));
+                }
+                cover(ctx, 5000);
+                ctx.units += 1;
+                return Ok(());
+            }
             if (sc.get("seed") >> 9) & 3 == 0 {
                 // ---- the generators run while nothing is audible: a program keeps every amplitude register at
                 // zero for more than a second and then switches a channel on. A twin machine on which that
